@@ -82,6 +82,7 @@ def parse_log(path, res):
     """Parse one shard log; returns (done, open_case_idx, open_case_key, last_fault)."""
     done = False
     open_idx, open_key, fault = None, None, None
+    res.restart_at = None
     try:
         f = open(path, "r", errors="replace")
     except OSError:
@@ -111,6 +112,8 @@ def parse_log(path, res):
                 fault = line
             elif line.startswith("HARNESS "):
                 res.inconclusive.append(line)
+            elif line.startswith("RESTART "):
+                res.restart_at = int(line.split()[1])
             elif line == "DONE":
                 done = True
     return done, open_idx, open_key, fault
@@ -146,6 +149,14 @@ def run_shard(binpath, args, env, workdir, tag, prop, timeout, max_restarts=400)
         if done and rc == 0:
             res.done = True
             break
+        if rc == 77 and tmp.restart_at is not None:
+            start = tmp.restart_at + 1
+            attempt += 1
+            res.planned_restarts = getattr(res, "planned_restarts", 0) + 1
+            if res.planned_restarts > max_restarts:
+                res.inconclusive.append("more than %d planned restarts in %s" % (max_restarts, tag))
+                break
+            continue
         if timed_out:
             timeouts += 1
             res.inconclusive.append("timeout in %s at case %s (%s)" % (tag, open_idx, open_key))
@@ -303,7 +314,7 @@ def build_all(flavours, workdir, drivers):
 
 
 def run_check(prop, spec, tier, seed, workdir, t0, only_run=None):
-    runs = [r for r in spec["runs"] if tier in r.get("tiers", ("quick", "thorough"))]
+    runs = [r for r in spec["runs"] + spec.get("extra_runs", []) if tier in r.get("tiers", ("quick", "thorough"))]
     if only_run:
         runs = [r for r in runs if r.get("name") == only_run]
     flavours = sorted({r["flavour"] for r in runs})
